@@ -31,7 +31,9 @@ RULE = ('selection: datasets (normal/uniform/exponential/beta/lognormal/bimodal/
         '(get_instance, fit, kstest(X, instance.cdf)) and sent as Option-KS list; distinct by (dataset, list), '
         'non-trivial when >= 2 candidates are fittable.  filters: generated table vs introspection, all 12 '
         '(parametric, bounded) pairs, Univariate.__init__ forms, random synthetic hierarchies (ABC mixins, tag '
-        'inheritance, multiple inheritance) run through the real _select_candidates.  GaussianMultivariate: 2-4 column '
+        'inheritance, multiple inheritance) run through the real _select_candidates; user families registered temporarily '
+        'BELOW CONCRETE library families (one / two levels, own tags, abstract intermediate) in the default-candidate path '
+        'for all 12 filter pairs (search: minimality over the class tree the harness walks itself).  GaussianMultivariate: 2-4 column '
         'frames x config forms (class, FQN, prototype, dict full/partial/empty/extra keys, str and int column names) '
         'incl. distributions raising in fit; model composes per-column outcome into the fitted types')
 PARTIAL = ['"the fit still succeeds" is proved for _fit_columns (fit_columns_total); the later _get_correlation step of '
@@ -570,7 +572,7 @@ def run(ctx, lean):
     _P, _B = _enums()
     if lean is None:
         for n in ('corr:class-table', 'corr:select_candidates', 'corr:init_candidates', 'corr:select_candidates-random-hierarchies',
-                  'corr:select_univariate', 'corr:gaussian_multivariate', 'corr:gaussian_multivariate-fit-history'):
+                  'corr:select_univariate', 'corr:gaussian_multivariate', 'corr:gaussian_multivariate-fit-history', 'corr:select_candidates-user-subclasses'):
             ctx.ob(n, False, 'tie', 'driver unavailable')
         return
     outs = Outcomes()
@@ -578,12 +580,112 @@ def run(ctx, lean):
                      ('random-hierarchies', lambda: tie_hierarchies(ctx, lean)),
                      ('select_univariate', lambda: tie_select(ctx, lean, outs)),
                      ('gaussian_multivariate', lambda: tie_gm(ctx, lean, outs)),
-                     ('gaussian_multivariate-fit-history', lambda: tie_gm_history(ctx, lean, outs))):
+                     ('gaussian_multivariate-fit-history', lambda: tie_gm_history(ctx, lean, outs)),
+                     ('select_candidates-user-subclasses', lambda: tie_user_families(ctx, lean))):
         try:
             fn()
         except Exception:     # a crash of one correspondence must not hide the others nor skip the search
             import traceback
             ctx.ob('corr:' + name + ':harness-exception', False, 'tie', traceback.format_exc()[-500:])
+
+
+# ------------------------------------------------------------------------------- user families below concrete families
+class user_families:
+    """Context manager: temporarily registers user-defined families the way the library discovers families — by
+    subclassing — BELOW CONCRETE library families (one and two levels deep, own PARAMETRIC/BOUNDED tags, an abstract
+    intermediate), and unregisters them again (`__subclasses__` holds weak references: dropping every reference and
+    collecting removes them).  `.clean` tells whether the hierarchy is back to what it was."""
+
+    def __enter__(self):
+        from copulas.univariate import GammaUnivariate, GaussianUnivariate, Univariate
+        from scipy import stats
+        P, B = _enums()
+        self.before = [c.__name__ for c in descendants(Univariate)]
+
+        def ln_fit(self, X):
+            X = np.asarray(X, dtype=float)
+            if (X <= 0).any():
+                raise ValueError('UserLogNormal needs strictly positive data')
+            logs = np.log(X)
+            self._params = {'s': float(np.std(logs)), 'loc': 0.0, 'scale': float(np.exp(np.mean(logs)))}
+
+        def ln_fit_constant(self, X):
+            self._params = {'s': 0.0, 'loc': 0.0, 'scale': float(np.unique(X)[0])}
+
+        def lap_fit(self, X):
+            X = np.asarray(X, dtype=float)
+            loc = float(np.median(X))
+            self._params = {'loc': loc, 'scale': float(np.mean(np.abs(X - loc)))}
+
+        def mid_fit(self, X):
+            X = np.asarray(X, dtype=float)
+            self._sorted = np.sort(X)
+            self._params = {'loc': float(np.mean(X)), 'scale': float(np.std(X))}
+
+        def mid_cdf(self, X):
+            self.check_fit()
+            X = np.asarray(X, dtype=float)
+            n = len(self._sorted)
+            return (np.searchsorted(self._sorted, X, 'left') + np.searchsorted(self._sorted, X, 'right')) / (2.0 * n)
+
+        # one level below a concrete family, own BOUNDED tag (log-normal: Gaussian on the log scale)
+        LogN = type('UserLogNormal', (GaussianUnivariate,), {
+            'PARAMETRIC': P.PARAMETRIC, 'BOUNDED': B.SEMI_BOUNDED, 'MODEL_CLASS': stats.lognorm, '_fit': ln_fit,
+            '_fit_constant': ln_fit_constant, '_is_constant': lambda self: self._params['s'] == 0,
+            '_extract_constant': lambda self: self._params['scale']})
+        # one level below, tags inherited from the concrete parent
+        Lap = type('UserLaplace', (GaussianUnivariate,), {'MODEL_CLASS': stats.laplace, '_fit': lap_fit})
+        # two levels below, tagged for a filter pair no shipped family has; mid-rank ecdf: fits every dataset best
+        Mid = type('UserMidRank', (Lap,), {'PARAMETRIC': P.NON_PARAMETRIC, 'BOUNDED': B.BOUNDED, '_fit': mid_fit,
+                                          'cumulative_distribution': mid_cdf})
+        # an abstract intermediate below a concrete family, and its concrete child
+        Abs = type('UserAbstractGamma', (GammaUnivariate, ABC), {})
+        GamC = type('UserGammaChild', (Abs,), {'BOUNDED': B.SEMI_BOUNDED})
+        self.classes = [LogN, Lap, Mid, Abs, GamC]
+        return self
+
+    def __exit__(self, *a):
+        from copulas.univariate import Univariate
+        self.classes = None
+        gc.collect()
+        self.clean = [c.__name__ for c in descendants(Univariate)] == self.before
+        return False
+
+
+def expected_default_candidates(p, b):
+    """what `Univariate(parametric=p, bounded=b)` must choose from: every non-abstract class below Univariate, found
+    by walking `__subclasses__` here, whose tags match."""
+    from copulas.univariate import Univariate
+    out = []
+    for c in descendants(Univariate):
+        if c in out or ABC in c.__bases__:
+            continue
+        if (p is None or c.PARAMETRIC == p) and (b is None or c.BOUNDED == b):
+            out.append(c)
+    return out
+
+
+def below_concrete(c):
+    """has a non-abstract proper ancestor below Univariate (i.e. specialises a concrete family)."""
+    from copulas.univariate import Univariate
+    return any(a is not c and a is not Univariate and issubclass(a, Univariate) and ABC not in a.__bases__ for a in c.__mro__)
+
+
+def tie_user_families(ctx, lean):
+    from copulas.univariate import Univariate
+    bad = None
+    with user_families() as uf:
+        toks = tree_tokens(Univariate)
+        for p, b in filter_pairs():
+            real = ['ok'] + [c.__name__ for c in Univariate._select_candidates(p, b)]
+            model = ask(lean, f'cands {p_tok(p)} {b_tok(b)} ' + ' '.join(toks)).split()
+            ctx.case(('user-families', p_tok(p), b_tok(b)))
+            ctx.count('filter:with-user-subclasses-of-concrete-families')
+            if real != model and bad is None:
+                bad = {'tree': toks, 'parametric': str(p), 'bounded': str(b), 'real': real[1:], 'model': model}
+    if not uf.clean:
+        ctx.notes.append('user families could not be unregistered (still in __subclasses__)')
+    ctx.ob('corr:select_candidates-user-subclasses', bad is None, 'tie', bad or 'ok')
 
 
 def ask(lean, line):
@@ -1255,8 +1357,8 @@ def optimality_violation(L, X, outcomes, retry=True):
     return v
 
 
-def _optimality_violation(L, X, outcomes):
-    real = real_univariate_fit([e.obj for e in L], X)
+def _optimality_violation(L, X, outcomes, real=None):
+    real = real if real is not None else real_univariate_fit([e.obj for e in L], X)
     ks = ['raised' if o is None else o for o in outcomes]
     finite = [o for o in outcomes if o is not None and o < math.inf]
     if real[0] == 'ok':
@@ -1406,7 +1508,48 @@ def search(ctx, deep):
                             obs = {'observed': obs, 'distribution attribute now': repr(now)[:300]}
                             req += ' — the configuration the user passed, not one rewritten by an earlier fallback'
                         bad('GaussianMultivariate.fit', dict(inp, column=str(c), configured=v[0]), obs, req, cls)
-    for part in (part1, part2, part3, part4):
+    def part5():
+        nonlocal checked
+        # ---- 5. default-candidate path with user families registered below CONCRETE library families
+        from copulas.univariate import Univariate as U
+        local = Outcomes()          # holds references to the temporary classes: dropped with this frame
+        kinds = ['lognormal', 'student', 'uniform', 'normal', 'exponential', 'negative']
+        with user_families() as uf:
+            for did, kind, X in datasets(ctx, 'U', 6 if deep else 2, kinds=kinds):
+                for p, b in filter_pairs():
+                    want = expected_default_candidates(p, b)
+                    L = [Entry('cls:' + c.__name__, c) for c in want]
+                    outcomes = [local.get(did, e, X) for e in L]
+                    real = real_univariate_fit(None, X, parametric=p, bounded=b)
+                    checked += 1
+                    v = _optimality_violation(L, X, outcomes, real)
+                    if v is None:
+                        continue
+                    obs, req, cls = v
+                    got = None
+                    try:
+                        got = list(U._select_candidates(p, b))
+                    except Exception:
+                        got = []
+                    missing = [c.__name__ for c in want if c not in got]
+                    if any(below_concrete(c) for c in want if c not in got):
+                        cls = 'Univariate.fit:subclass-of-concrete-family-not-a-candidate'
+                        obs = dict(obs, candidates_used=[c.__name__ for c in got], families_missing=missing)
+                        req += ('; the default candidates are ALL non-abstract families below Univariate whose tags match, '
+                                'including those that specialise a concrete family')
+                    bad('Univariate.fit', {'dataset': did, 'X': X.tolist(), 'parametric': str(p), 'bounded': str(b),
+                                           'registered user families': 'UserLogNormal(GaussianUnivariate)[PARAMETRIC,SEMI_BOUNDED], '
+                                           'UserLaplace(GaussianUnivariate), UserMidRank(UserLaplace)[NON_PARAMETRIC,BOUNDED], '
+                                           'UserAbstractGamma(GammaUnivariate, ABC), UserGammaChild(UserAbstractGamma)[SEMI_BOUNDED]',
+                                           'candidates': [e.key for e in L]}, obs, req, cls)
+            L = want = got = v = None
+            local.cache.clear()
+        del local
+        gc.collect()
+        if [c.__name__ for c in descendants(U)] != uf.before:
+            ctx.notes.append('user families could not be unregistered (still in __subclasses__)')
+
+    for part in (part1, part2, part3, part4, part5):
         try:
             part()
         except Exception:
